@@ -297,6 +297,9 @@ pub fn gen_record(r: &mut Rng, db: &mut DbScript, fl: &Flags, eff: &mut Eff) -> 
             let ans = match r.below(5) {
                 0 | 1 => Ans::Complete(r.below(4) as u64),
                 2 => Ans::Rows { types: "T".into(), rows: gen_rows(r, 3, 1) },
+                // now and then an error text of 20 000 characters (whatever is built from it -- a pattern, a
+                // line of the file -- must cope)
+                _ if r.chance(1, 50) => Ans::Error(format!("long error {}", "x".repeat(20000))),
                 _ => Ans::Error(r.pick(ERR_TEXTS).to_string()),
             };
             let (hdr, block) = if want_pass {
